@@ -178,7 +178,7 @@ def build_model(obs, tier, seed):
             quad = rnd.sample(quad, 30000)
         combos["quad"] = quad
     # cross-check: sampled pairs of whole programmes
-    capw = 6000 if thorough else 500
+    capw = 3000 if thorough else 500
     m = len(whole_keys)
     wmulti = [any(_is_multi(st) for _, st in _segments([{"op": s[0], "kind": s[1], "pos": s[2]} for s in k], False)) for k in whole_keys]
     wp, seen = [], set()
@@ -343,9 +343,11 @@ def run(v, cov, tier, seed):
     in_path = os.path.join(d, "locks_input.json")
     json.dump(model["input"], open(in_path, "w"))
     res_steps = {}
-    if thorough:   # cross-check of the reduction on the observed instance itself
+    if thorough:   # cross-check of the reduction on the observed instance itself (segment compositions)
+        steps_path = os.path.join(d, "locks_input_steps.json")
+        json.dump(dict(model["input"], combos=[c for c in model["input"]["combos"] if all(x <= model["nseg"] for x in c)]), open(steps_path, "w"))
         t2 = threading.Thread(target=lambda: res_steps.update(r=common.run_tlc("MC_Locks", cfg="MC_Locks_steps.cfg", workers=4, heap="3g",
-                                                                                extra_env={"LOCKS": in_path}, timeout=900)))
+                                                                                extra_env={"LOCKS": steps_path}, timeout=900)))
         t2.start()
     res = common.run_tlc("MC_Locks", workers=8, heap="3g", extra_env={"LOCKS": in_path}, timeout=900 if thorough else 240,
                          jvm=() if thorough else FAST_JVM)
@@ -361,7 +363,7 @@ def run(v, cov, tier, seed):
         rs = res_steps["r"]
         if rs.timed_out or rs.rc != 0 or "Model checking completed. No error" not in rs.out:
             common.die_infra("TLC on MC_Locks (step-by-step mode) did not complete (rc=%s):\n%s" % (rs.rc, rs.out[-3000:]))
-        a = {tuple(x["combo"]) for x in _parse_printed(res.out, "DEADLOCK")}
+        a = {tuple(x["combo"]) for x in _parse_printed(res.out, "DEADLOCK") if all(y <= model["nseg"] for y in x["combo"])}
         b = {tuple(x["combo"]) for x in _parse_printed(rs.out, "DEADLOCK")}
         if a != b:
             common.die_infra("Locks.tla: reduced and step-by-step runs disagree on the observed programmes: %s" % (sorted(a ^ b)[:5],))
@@ -455,7 +457,7 @@ def run(v, cov, tier, seed):
     b3["divergences"] = divergences
     b3["wall_s"] = round(time.time() - t0, 1)
     cov["b3_lock_order"] = b3
-    print("B3 lock order: %d observations of %d configurations -> %d distinct programmes, %d segments; TLC composed %d singles, %d pairs, %d triples (+%d sampled whole-programme pairs): %d states, %d deadlock combos; replays %d, real deadlocks %d, divergences %d; %.1fs" % (
+    print("B3 lock order: %d observations of %d configurations -> %d distinct programmes, %d segments; TLC composed %d singles, %d pairs, %d triples/quadruples of segments (+%d sampled whole-programme pairs): %d states, %d deadlock combos; replays %d, real deadlocks %d, divergences %d; %.1fs" % (
         obs["observations"], obs["configs"], model["nwhole"], nseg, model["counts"]["single"], model["counts"]["pair"], model["counts"]["triple"] + model["counts"]["quad"],
         model["counts"]["whole_pair"], res.distinct, len(seg_dead) + len(whole_dead), b3["replays"], b3["real_deadlocks"], divergences, time.time() - t0), flush=True)
     return b3
